@@ -192,7 +192,13 @@ pub fn dump_mem(pid: i32, o: &DumpOpts) -> DumpResult {
 
 /// Dump into a recording destination positioned at `start` over pre-existing content `pre`.
 pub fn dump_recorded(pid: i32, o: &DumpOpts, start: u64, pre: Vec<u8>, fault: crate::dest::Fault) -> (DumpResult, crate::dest::RecDest) {
+    dump_recorded_at(pid, o, 0, start, pre, fault)
+}
+
+/// The same with the destination's window presented at absolute file offset `base` (see RecDest::base).
+pub fn dump_recorded_at(pid: i32, o: &DumpOpts, base: u64, start: u64, pre: Vec<u8>, fault: crate::dest::Fault) -> (DumpResult, crate::dest::RecDest) {
     let mut d = crate::dest::RecDest::new(pre, start, fault);
+    d.base = base;
     let r = run_dump(pid, o, &mut d);
     (r, d)
 }
